@@ -8,9 +8,6 @@ namespace EE
 
 abbrev PR := Res (AST × Nat × List Tok)
 
-def notName : Name := ['n', 'o', 't']
-def qName : Name := ['?']
-def colonName : Name := [':']
 
 /-- `Parser::node`: a new node above children of maximal height `children`. -/
 def node (lim : Nat) (children : Nat) : Res Nat :=
